@@ -62,8 +62,12 @@ func (p *Project) WorkflowsDir() string {
 // Knows returns true when the project knows the given file. When a file is included in the
 // project's directory, the project knows the file.
 func (p *Project) Knows(path string) bool {
-	// TODO: strings.HasPrefix is not perfect to check file path
-	return strings.HasPrefix(absPath(path), p.root)
+	a := absPath(path)
+	if !strings.HasPrefix(a, p.root) {
+		return false
+	}
+	// The prefix must end at a path separator. Otherwise /path/to/repo would know /path/to/repo2/file
+	return len(a) == len(p.root) || os.IsPathSeparator(a[len(p.root)]) || p.root != "" && os.IsPathSeparator(p.root[len(p.root)-1])
 }
 
 // Config returns config object of the GitHub project repository. The config file was read from
